@@ -98,6 +98,23 @@ type view struct {
 	popSeq    map[int][]int // per block id: log positions of its pops not yet matched by a hand-back
 }
 
+// locked runs f on the block list under the store lock, the way the location blob map calls it;
+// a panic of the real code is recorded (C07: the wake-up machinery never panics).
+func (s *sut) locked(what string, f func()) (panicked bool) {
+	s.lock.Lock()
+	defer s.lock.Unlock()
+	defer func() {
+		if r := recover(); r != nil {
+			s.mu.Lock()
+			s.panics = append(s.panics, fmt.Sprintf("%s: %v", what, r))
+			s.mu.Unlock()
+			panicked = true
+		}
+	}()
+	f()
+	return false
+}
+
 func errTag(err error) string {
 	switch status.Code(err) {
 	case codes.Unavailable:
@@ -126,9 +143,10 @@ func (s *sut) apply(v *view, op string) (line, reply string, ok bool) {
 	switch w[0] {
 	case "push":
 		s.newFailed = false
-		s.lock.Lock()
-		err := s.bl.PushBack()
-		s.lock.Unlock()
+		var err error
+		if s.locked("PushBack", func() { err = s.bl.PushBack() }) {
+			return "", "", false
+		}
 		if err == nil {
 			v.blocks++
 			return "push", fmt.Sprintf("ok %d", s.lastNewID), true
@@ -141,9 +159,9 @@ func (s *sut) apply(v *view, op string) (line, reply string, ok bool) {
 		if v.blocks == 0 {
 			return "", "", false
 		}
-		s.lock.Lock()
-		s.bl.PopFront()
-		s.lock.Unlock()
+		if s.locked("PopFront", func() { s.bl.PopFront() }) {
+			return "", "", false
+		}
 		v.blocks--
 		v.pops++
 		return "pop", "ok", true
@@ -152,13 +170,14 @@ func (s *sut) apply(v *view, op string) (line, reply string, ok bool) {
 		if idx >= v.blocks || size <= 0 {
 			return "", "", false
 		}
-		s.lock.Lock()
-		if !s.bl.HasSpace(idx, size) {
-			s.lock.Unlock()
+		var pw local.BlockListPutWriter
+		if s.locked("Put", func() {
+			if s.bl.HasSpace(idx, size) {
+				pw = s.bl.Put(idx, size)
+			}
+		}) || pw == nil {
 			return "", "", false
 		}
-		pw := s.bl.Put(idx, size)
-		s.lock.Unlock()
 		data := make([]byte, size)
 		for i := range data {
 			data[i] = byte(len(v.tickets)*13 + i)
@@ -173,14 +192,18 @@ func (s *sut) apply(v *view, op string) (line, reply string, ok bool) {
 		}
 		t := v.tickets[k]
 		t.done = true
-		s.lock.Lock()
-		off, err := t.finalizer()
+		var off int64
+		var err error
 		var epoch uint32
-		if err == nil {
-			ref, _ := s.bl.BlockIndexToBlockReference(0)
-			epoch = ref.EpochID
+		if s.locked("put finalizer", func() {
+			off, err = t.finalizer()
+			if err == nil {
+				ref, _ := s.bl.BlockIndexToBlockReference(0)
+				epoch = ref.EpochID
+			}
+		}) {
+			return "", "", false
 		}
-		s.lock.Unlock()
 		if err != nil {
 			return fmt.Sprintf("fin %d 0", t.abs), errTag(err), true
 		}
@@ -253,9 +276,12 @@ func (s *sut) logLen() int {
 	return len(s.log)
 }
 
-// spinUntil yields until cond holds (at most 5 s of wall time).
+// spinTimeout bounds the wall time spent waiting for calls the model predicts.
+var spinTimeout = 3 * time.Second
+
+// spinUntil yields until cond holds (at most spinTimeout of wall time).
 func spinUntil(cond func() bool) bool {
-	deadline := realNow() + 5*time.Second
+	deadline := realNow() + spinTimeout
 	for i := 0; ; i++ {
 		if cond() {
 			return true
